@@ -8,6 +8,7 @@ import (
 	"net"
 	"strings"
 	"sync"
+	"sync/atomic"
 	"testing"
 	"testing/synctest"
 	"time"
@@ -29,6 +30,9 @@ type Op13 struct {
 	Writers int    `json:"writers,omitempty"` // concurrent writers to the same peer
 	Empty   bool   `json:"empty,omitempty"`   // inbound: the peer's datagram is empty (a zero-length payload is a datagram too)
 	Cookie  bool   `json:"cookie,omitempty"`  // inbound: the payload begins with the STUN magic cookie (application data may)
+	// deadline: after the timeout the reader calls ReadFrom this many more times without touching
+	// the deadline - a deadline that has passed keeps failing reads until it is moved
+	Again int `json:"again,omitempty"`
 }
 
 // C13Case is the replay format.
@@ -362,6 +366,7 @@ func runC13Inner(c *C13Case) (res c13Result) { //nolint:cyclop,gocyclo,maintidx
 	}
 	var rmu sync.Mutex
 	var got []rx
+	var readAgain atomic.Int64
 	readerDone := make(chan struct{})
 	closed := false
 	if c.Reader && relay != nil {
@@ -376,6 +381,9 @@ func runC13Inner(c *C13Case) (res c13Result) { //nolint:cyclop,gocyclo,maintidx
 					rmu.Unlock()
 					var ne net.Error
 					if errors.As(err, &ne) && ne.Timeout() {
+						if readAgain.Add(-1) >= 0 {
+							continue // the deadline stays where it is: the next ReadFrom must fail as well
+						}
 						_ = relay.SetReadDeadline(time.Time{})
 
 						continue
@@ -572,18 +580,31 @@ func runC13Inner(c *C13Case) (res c13Result) { //nolint:cyclop,gocyclo,maintidx
 				continue
 			}
 			deadlineAt = time.Now().Add(time.Duration(op.N) * time.Millisecond)
+			readAgain.Store(int64(op.Again))
 			_ = relay.SetReadDeadline(deadlineAt)
 			time.Sleep(time.Duration(op.N)*time.Millisecond + 500*time.Microsecond)
 			synctest.Wait()
 			rmu.Lock()
 			okTimeout := false
+			timeouts := 0
 			for _, g := range got {
 				var ne net.Error
 				if g.err != nil && errors.As(g.err, &ne) && ne.Timeout() && !g.at.Before(deadlineAt) && g.at.Sub(deadlineAt) < time.Millisecond {
 					okTimeout = true
+					timeouts++
 				}
 			}
 			rmu.Unlock()
+			readAgain.Store(0)
+			if okTimeout && timeouts < 1+op.Again && queuedEmpty(got, relayed) {
+				select {
+				case <-readerDone:
+				default:
+					fail("expired-read-deadline-forgotten", "%s: the read deadline %v has passed and was not moved; ReadFrom failed with a timeout %d time(s) and then blocked instead of failing again (%d further calls were made)", ctx, deadlineAt.UTC(), timeouts, op.Again)
+					_ = relay.SetReadDeadline(time.Now().Add(-time.Second))
+					_ = relay.SetReadDeadline(time.Time{})
+				}
+			}
 			select {
 			case <-readerDone:
 				okTimeout = true // the client closed the allocation meanwhile (ChannelBind answered 400): the reader ended with the close error
@@ -733,6 +754,7 @@ func genC13(rt *rapid.T) *C13Case {
 			op.Cookie = rapid.IntRange(0, 4).Draw(rt, "cookie") == 0
 		case "deadline":
 			op.N = rapid.SampledFrom([]int{1, 50, 1000, 30000}).Draw(rt, "ms")
+			op.Again = rapid.SampledFrom([]int{0, 0, 1, 3}).Draw(rt, "again")
 		case "sleep":
 			op.N = rapid.SampledFrom([]int{1, 5, 31, 121, 301, 601}).Draw(rt, "secs")
 		case "close":
@@ -785,6 +807,9 @@ func TestC13(t *testing.T) {
 		return
 	}
 	for _, f := range r.RegressFiles(".json") {
+		if strings.Contains(f, ".firstwrites.") {
+			continue // TestC13FirstWrites
+		}
 		var c C13Case
 		if err := vkit.LoadJSON(f, &c); err != nil {
 			t.Fatalf("bad regress file %s: %v", f, err)
